@@ -301,7 +301,16 @@ def find_model(constraints_pc, *, neg_paths=(), timeout_ms=10000, monotone=True,
     s.set("timeout", int(timeout_ms))
     cs = [lw.rel(d, rel) for d, rel in constraints_pc]
     for path in neg_paths:
-        lits = [z3.Not(lw.rel(d, rel)) for d, rel in path]
+        # data comparisons: the complement of d > 0 is taken as d < 0 (the tie set d == 0 is a kink, outside the claim);
+        # comparisons between hyper-parameters / labels: true negation, equality is a legitimate configuration
+        lits = []
+        for d, rel in path:
+            vs = sc.node_vars(d)
+            hyper = bool(vs) and all(CTX.vars[v].kind == "hyper" for v in vs)
+            if hyper or rel in ("==", "!="):
+                lits.append(z3.Not(lw.rel(d, rel)))
+            else:
+                lits.append(lw.rel(d, {">": "<", "<": ">"}[rel]))
         if not lits:
             cs.append(z3.BoolVal(False, lw.ctx))
         else:
